@@ -249,6 +249,22 @@ def _batch_forms(ck: Check, prog: Program, ci: ClassInfo, elem: str) -> None:
     if not ok_r:
         ck.finding('BATCH-FORM', fj.qualname, 'batch deserialisation form', fj.module.rel, fj.node.lineno,
                    f'{ci.name}.from_json must build the batch from {elem}.from_json(x) for every x of the array, in order')
+    # the empty batch: BatchResponse() is constructible and serialises to [], so its reader must accept [] (the request side
+    # rejects [] because JSON-RPC 2.0 says so — that one is C06's FIELD-GUARD, and the only emptiness rejection allowed)
+    if ci.name == 'BatchResponse':
+        from .c06 import raise_edges
+        jp_ = json_param(fj)
+        rejecting = []
+        for c_, e_ in raise_edges(cfg):
+            ckd = classify_cond(prog, fj, c_.ast)
+            if ckd.subject == jp_ and ((ckd.kind == 'len-cmp' and ckd.detail.replace(' ', '') in (f'len({jp_})==0', f'len({jp_})<1') and e_.label == 'T')
+                                       or (ckd.kind == 'truthy' and (e_.label == 'F') != ckd.negated)):
+                rejecting.append(c_)
+        ck.ob('BATCH-FORM', 'BatchResponse.from_json accepts the empty array (what BatchResponse().to_json() produces)', not rejecting)
+        for c_ in rejecting:
+            ck.finding('BATCH-FORM', fj.qualname, 'empty batch response rejected', fj.module.rel, c_.line,
+                       f'`{norm(c_.ast)}` makes BatchResponse.from_json raise for `[]`, which is exactly the wire form of an empty BatchResponse: '
+                       f'the message does not survive serialise -> deserialise')
     # storage: extend appends in order
     ext = ci.methods.get('extend')
     ok_s = False
@@ -445,6 +461,10 @@ def _encoder(ck: Check, prog: Program) -> None:
 
 
 MUTANTS = [
+    dict(name='empty-batch-response-rejected', file='pjrpc/common/v20.py',
+         find='            if not isinstance(json_data, (list, tuple)):\n                raise DeserializationError("data must be of type list")\n',
+         replace='            if not isinstance(json_data, (list, tuple)):\n                raise DeserializationError("data must be of type list")\n'
+                 '            if len(json_data) == 0:\n                raise DeserializationError("response list is empty")\n', expect='BATCH-FORM'),
     dict(name='data-default-None', file='pjrpc/common/exceptions.py', find="json_data.get('data', UNSET)", replace="json_data.get('data')",
          expect='WIRE-TABLE'),
     dict(name='result-truthiness-to_json', file='pjrpc/common/v20.py', find='        if self._result is not UNSET:\n', replace='        if self._result:\n',
